@@ -127,7 +127,7 @@ def o_detect(case):
         for p in range(nbits):
             _must_reject(frame, framing.flip_bits(frame, [p]), f"single bit {p}")
             evals += 1
-        digs = [digest([case["frame"], "s", p]) for p in range(nbits)] if nt else []
+        cnt = nbits if nt else 0
         cls = ["all_single"] + (["zero-crc-frame"] if frame[-3:] == b"\0\0\0" else [])
     elif mode == "all_burst_starts":
         span, seed = case["span"], case["seed"]
@@ -135,14 +135,14 @@ def o_detect(case):
             pos = _burst_positions(s, span, _interior(seed, s, span))
             _must_reject(frame, framing.flip_bits(frame, pos), f"burst span {span} at {s} bits {pos}")
             evals += 1
-        digs = [digest([case["frame"], "b", span, seed, s]) for s in range(nbits - span + 1)] if nt else []
+        cnt = (nbits - span + 1) if nt else 0
         cls = [f"all_burst_span{span}"]
     elif mode == "all_pairs":
         for p in range(nbits):
             for q in range(p + 1, nbits):
                 _must_reject(frame, framing.flip_bits(frame, [p, q]), f"pair {p},{q}")
                 evals += 1
-        digs = [digest([case["frame"], "allpairs"])] if nt else []
+        cnt = evals if nt else 0
         cls = ["all_pairs"]
     else:  # explicit positions
         pos = sorted(set(p % nbits for p in case["positions"]))
@@ -155,11 +155,12 @@ def o_detect(case):
             assert len(pos) == 2
         _must_reject(frame, framing.flip_bits(frame, pos), f"{kind} {pos}")
         evals = 1
+        cnt = None
         digs = [digest([case["frame"], pos])] if nt else []
         if kind == "lower-length":
             assert len(pos) <= 3 and pos[-1] - pos[0] < 24
         cls = [kind] + (["zero-crc-frame"] if frame[-3:] == b"\0\0\0" else []) + ["in-header" if pos[0] < 24 else ("in-crc" if pos[-1] >= nbits - 24 else "in-payload")]
-    return Res(nontrivial=nt, classes=cls, evals=evals, digests=digs)
+    return Res(nontrivial=nt, classes=cls, evals=evals, digests=digs if cnt is None else None, count=cnt)
 
 
 @st.composite
